@@ -217,3 +217,4 @@ class repeated_node_with_interleaving_comments_property(
         properties.replace_node(repeated, value.repeated)
         self._inner_field.__set__(instance, value.repeated)
         instance.__dict__[self._attr] = value
+        properties.drop_cached_views(instance)
